@@ -115,21 +115,28 @@ func (e *lx) intended(learn func(fn string, args []string) (string, bool)) (stri
 			// the migration writes date arithmetic only where it can see that the right operand is a number (an integer literal
 			// or a call of a function known to return one); elsewhere legacy_add decides at run time - what is checked here
 			// is grouping and argument order, not that inference
-			lt := e.kids[0].dateType()
-			if !c17LooksNumeric(e.kids[1]) || e.kids[0].kind == "paren" {
-				lt = ""
-			}
-			switch lt {
-			case "date":
+			// which of its forms the migration writes is decided by what it can infer about the operands from their migrated
+			// text (c17InferType follows it); within each form the operands must keep their grouping and order
+			lt, rt := c17InferType(e.kids[0]), c17InferType(e.kids[1])
+			switch {
+			case lt == "date" && rt == "number":
 				if op == "-" {
 					r = "-(" + r + ")"
 				}
 				return fmt.Sprintf(`format_date(datetime_add((%s), (%s), "D"))`, l, r), ok1 && ok2
-			case "datetime":
+			case lt == "datetime" && rt == "number":
 				if op == "-" {
 					r = "-(" + r + ")"
 				}
 				return fmt.Sprintf(`datetime_add((%s), (%s), "D")`, l, r), ok1 && ok2
+			case lt == "datetime" && rt == "time":
+				minutes := fmt.Sprintf(`format_time((%[1]s), "tt") * 60 + format_time((%[1]s), "m")`, r)
+				if op == "-" {
+					return fmt.Sprintf(`datetime_add((%s), -(%s), "m")`, l, minutes), ok1 && ok2
+				}
+				return fmt.Sprintf(`datetime_add((%s), (%s), "m")`, l, minutes), ok1 && ok2
+			case rt == "time" && op == "+":
+				return fmt.Sprintf(`replace_time((%s), (%s))`, l, r), ok1 && ok2
 			}
 			if op == "-" {
 				return fmt.Sprintf("legacy_add((%s), -(%s))", l, r), ok1 && ok2
@@ -181,6 +188,31 @@ func c17LooksNumeric(e *lx) bool {
 		return c17NumericFns[mm[1]]
 	}
 	return false
+}
+
+// what the migration infers about an operand: from its migrated text, an integer literal or a call of a function with a
+// known return type (the table follows functionReturnTypes; a formatted date part is not a date)
+var c17ReturnTypes = map[string]string{"abs": "number", "datetime_add": "datetime", "datetime_from_parts": "datetime", "datetime": "datetime", "date": "date",
+	"format_date": "date", "max": "number", "mean": "number", "min": "number", "mod": "number", "now": "datetime", "sum": "number", "rand": "number", "round": "number",
+	"round_down": "number", "round_up": "number", "time": "time", "time_from_parts": "time", "today": "date"}
+var c17DatePartRe = regexp.MustCompile(`^format_date\(.*, "(D|M|YYYY)"\)$`)
+
+func c17InferType(e *lx) string {
+	m, err := expressions.MigrateTemplate("@("+e.legacy()+")", nil)
+	if err != nil || !strings.HasPrefix(m, "@(") {
+		return ""
+	}
+	t := m[2 : len(m)-1]
+	if _, err := strconv.Atoi(t); err == nil {
+		return "number"
+	}
+	if mm := c17CallRe.FindStringSubmatch(t); mm != nil {
+		if c17DatePartRe.MatchString(t) {
+			return ""
+		}
+		return c17ReturnTypes[mm[1]]
+	}
+	return ""
 }
 
 func (e *lx) dateType() string {
